@@ -18,6 +18,10 @@ class Cell(NullCell):
     If you want to write to cell use .to_builder() method.
     """
     def __init__(self, bits: BitarrayLike, refs: typing.List["Cell"], cell_type: int = -1) -> None:
+        if not isinstance(bits, TvmBitarray):
+            # own bounded copy: a plain bitarray would be padded in place by get_data_bytes() and its slices
+            # would not check read bounds
+            bits = TvmBitarray(1023, bits)
         self.bits: BitarrayLike = bits
         self.refs: list = refs
         self.type_: int = cell_type
